@@ -109,6 +109,9 @@ def parseTx (t : List String) : Option Tx :=
     let as := args.map parseArg
     if as.all Option.isSome then some (.bvm signer c m (as.filterMap id)) else none
   -- raw payloads / raw transaction data: outside the model (a failed or successful receipt the model does not predict)
+  -- Ethereum transactions are outside the model.  One that the EVM refuses charges nothing (no gas used): it is given the
+  -- empty account, whose fee step finds nothing to take; a successful one ends the comparison of the history (mask)
+  | "eth" :: _ :: _ => some (.bvm "" "?eth" "?" [])
   | "raw" :: signer :: _ => some (.bvm signer "?" "?" [])
   | "rawtd" :: signer :: _ => some (.bvm signer "?" "?" [])
   | _ => none
